@@ -374,8 +374,13 @@ def check_presets(prog: Program, res: Result, sch: Schema) -> None:
                 if isinstance(b, ast.Assign) and isinstance(b.targets[0], ast.Attribute):
                     v = b.value
                     mapper = None
+                    called = isinstance(v, ast.Call) and not v.args and not v.keywords and isinstance(v.func, ast.Subscript)
+                    if called:
+                        v = v.func            # TABLE[name]() with a table of CLASSES builds what a table of instances holds
                     if isinstance(v, ast.Subscript) and norm(v.slice) == recv:
                         mapper = v.value if isinstance(v.value, ast.Dict) else (astq._single_defs(fnode).get(v.value.id) if isinstance(v.value, ast.Name) else None)
+                    if called and isinstance(mapper, ast.Dict):
+                        mapper = ast.copy_location(ast.Dict(keys=list(mapper.keys), values=[ast.copy_location(ast.Call(func=x, args=[], keywords=[]), x) for x in mapper.values]), mapper)
                     ok = b.targets[0].attr == fam and isinstance(mapper, ast.Dict)
                     res.ob("C20-preset", ok, fi.qualname, f"'{fam}*' -> backbone_config.{b.targets[0].attr} from the {fam} preset table",
                            f"names starting with '{fam}' set `.{b.targets[0].attr}` from `{short(b.value, 40)}`", f"{fi.module.relpath}:{b.lineno}")
@@ -423,7 +428,7 @@ def check_presets(prog: Program, res: Result, sch: Schema) -> None:
                 attr = b.targets[0].attr
                 res.ob("C20-key", attr == key, f2.qualname, f"key '{key}' sets .{attr}",
                        f"the branch for '{key}' assigns `.{attr}`", f"{f2.module.relpath}:{b.lineno}")
-                if isinstance(b.value, ast.Call):
+                if isinstance(b.value, ast.Call) and isinstance(b.value.func, (ast.Name, ast.Attribute)):   # a class is instantiated by name (preset tables: C20-preset)
                     cls = norm(b.value.func).split(".")[-1]
                     exp = fields[key].types
                     res.ob("C20-key", cls in exp, f2.qualname, f"key '{key}' builds {cls}",
@@ -521,7 +526,7 @@ def check_comm(prog: Program, res: Result, sch: Schema) -> None:
     fi = prog.func(f"{TRAIN}:get_aug_config")
     res.touch(fi)
     # `for name in NAMES: if i == name: setattr(cfg, f"{name}_p", v); break` is the if/elif chain over NAMES
-    fn_u = astq.unroll_literal_loops(fi.node, consts=astq.module_consts(fi.module.tree))
+    fn_u = astq.unroll_literal_loops(astq.inline_attr_aliases(fi.node), consts=astq.module_consts(fi.module.tree))
     loops = [n for n in walk_function(fn_u) if isinstance(n, ast.For)]
     res.ob("C20-comm", len(loops) == 2, fi.qualname, "two list dispatch loops", f"{len(loops)} dispatch loops in get_aug_config", fi.where)
     seen_names: Set[str] = set()
@@ -687,7 +692,12 @@ def check_valid(prog: Program, res: Result, sch: Schema) -> None:
                 and any(isinstance(x, ast.Raise) for b in n.body for x in ast.walk(b))
                 for n in ast.walk(m.node)
             )
-            falls_through_to_raise = isinstance(last, ast.Raise) or member_guard
+            # ... or, however the tests are arranged, a `raise` that the control flow can reach
+            from ..core.cfg import CFG as _CFG
+            cfg_ = _CFG(m.node)
+            live_ = cfg_.live_nodes()
+            reach_raise = any(n_ in live_ for r_ in ast.walk(m.node) if isinstance(r_, ast.Raise) for n_ in cfg_.nodes_of(r_))
+            falls_through_to_raise = isinstance(last, ast.Raise) or member_guard or reach_raise
             res.ob("C20-valid", falls_through_to_raise, m.qualname, f"{vname} ends in a raise",
                    f"{vname} can fall off its end without raising", m.where)
     # swint sizes: the membership list is exactly tiny/small/base
@@ -938,14 +948,15 @@ def check_fresh(prog: Program, res: Result, sch: Schema) -> None:
     for fi in prog.all_functions():
         if fi.module.name != TRAIN or not fi.name.startswith("get_"):
             continue
+        fnode = astq.inline_attr_aliases(fi.node)     # `g = cfg.geometric; g.x = v` is the store `cfg.geometric.x = v`
         built = {}   # local name -> config class it was built as
-        for st in walk_function(fi.node):
+        for st in walk_function(fnode):
             if isinstance(st, ast.Assign) and len(st.targets) == 1 and isinstance(st.targets[0], ast.Name) and isinstance(st.value, ast.Call):
                 cls = norm(st.value.func).split(".")[-1]
                 if cls in sch.classes:
                     built[st.targets[0].id] = cls
         seen = set()
-        for st in walk_function(fi.node):
+        for st in walk_function(fnode):
             if isinstance(st, ast.Expr) and isinstance(st.value, ast.Call) and norm(st.value.func) == "setattr" and len(st.value.args) == 3:
                 # setattr(X.sub, name, v) is the same store
                 tgts = [ast.Attribute(value=st.value.args[0], attr="<dynamic>", ctx=ast.Store())]
@@ -962,7 +973,7 @@ def check_fresh(prog: Program, res: Result, sch: Schema) -> None:
                     seen.add((cls, sub))
                     f = sch.fields_of(cls).get(sub)
                     fresh_here = any(isinstance(s2, ast.Assign) and norm(s2.targets[0]) == f"{t.value.value.id}.{sub}" and isinstance(s2.value, ast.Call) and s2.lineno < st.lineno
-                                     and not any(isinstance(a_, ast.If) for a_ in ancestors(s2) if a_ not in list(ancestors(st))) for s2 in walk_function(fi.node))
+                                     and not any(isinstance(a_, ast.If) for a_ in ancestors(s2) if a_ not in list(ancestors(st))) for s2 in walk_function(fnode))
                     n += 1
                     res.touch(fi)
                     res.ob(R, f is not None and (f.factory is not None or fresh_here), fi.qualname, f"{cls}.{sub} is a per-instance object when {fi.name} writes into it",
